@@ -137,6 +137,54 @@ def _wrap(arg, how, sf=None, x=None):
     return arg
 
 
+_IDX = ("[C]", "[Ring1]", "[Ring2]", "[Branch1]", "[=Branch1]", "[#Branch1]", "[Branch2]", "[=Branch2]",
+        "[#Branch2]", "[O]", "[N]", "[=N]", "[=C]", "[#C]", "[S]", "[P]")
+
+
+def _constructive(rng, A, heavy, multi, L):
+    """Grammar-aware string over the alphabet: ring symbols get index symbols computed so that the
+    ring lands on a *chosen* earlier atom (the previous one, the root of the enclosing branch, an
+    atom that already carries rings ...), branch symbols get the index of their actual body length,
+    and chains continue from a branch root (so a root can receive rings after its branch closed).
+    It assumes every atom symbol yields an atom, which holds while the chain is alive; where it does
+    not, the string is simply another string over the alphabet."""
+    Aset = set(A)
+    idx = [s if s in Aset else None for s in _IDX]
+    atoms = [rng.choice(heavy) for _ in range(rng.randint(1, 4))] + [rng.choice(multi or heavy)]
+    rings = [r for r in ("[Ring1]", "[=Ring1]", "[#Ring1]") if r in Aset]
+    branches = [b for b in ("[Branch1]", "[=Branch1]", "[#Branch1]") if b in Aset]
+    pr = rng.choice((0.15, 0.3, 0.5))
+    pb = rng.choice((0.1, 0.2, 0.35))
+    state = {"n": 0}
+
+    def ring_to(cur, target):
+        q = cur - target - 1
+        if not rings or q < 0 or q > 15 or idx[q] is None:
+            return []
+        return [rng.choice(rings), idx[q]]
+
+    def body(budget, depth, roots):
+        w = []
+        cur = roots[-1] if roots else None
+        while len(w) < budget:
+            t = rng.random()
+            if cur is not None and t < pr and state["n"] > 1:
+                cands = list(range(max(0, cur - 8), cur)) + roots[-2:] + [max(0, cur - 1)] * 2
+                w += ring_to(cur, rng.choice(cands))
+            elif cur is not None and t < pr + pb and depth < 3 and branches:
+                inner = body(rng.randint(1, 6), depth + 1, roots + [cur])
+                if inner and len(inner) <= 16 and idx[len(inner) - 1] is not None:
+                    w += [rng.choice(branches), idx[len(inner) - 1]] + inner
+                # after the branch the chain continues from the same atom
+            else:
+                w.append(rng.choice(atoms))
+                cur = state["n"]
+                state["n"] += 1
+        return w
+
+    return "".join(body(L, 0, []))
+
+
 def alpha_strings(A, seed, count, maxlen):
     """Seeded strings over the sorted alphabet, biased to stay alive."""
     rng = random.Random(seed)
@@ -161,6 +209,35 @@ def alpha_strings(A, seed, count, maxlen):
         if v < 0.28 and structural:   # structure symbols where atoms are expected
             head = "".join(rng.choice(structural) for _ in range(rng.randint(1, 6)))
             out.append(head + "".join(rng.choice(heavy * 2 + structural) for _ in range(L)))
+            continue
+        if v < 0.45:
+            out.append(_constructive(rng, A, heavy, multi, L))
+            continue
+        if v < 0.6:
+            # ring / branch dense over a small sub-alphabet: rings closing onto nearby, already
+            # saturated atoms, rings inside branches back onto the branch root, several rings per
+            # atom - where the free-valence bookkeeping of ring formation is decided
+            Aset = set(A)
+            atoms = [rng.choice(heavy) for _ in range(rng.randint(1, 4))]
+            if rng.random() < 0.5 and multi:
+                atoms += [rng.choice(multi)]
+            rings = [r for r in ("[Ring1]", "[=Ring1]", "[Ring2]", "[=Ring2]", "[#Ring1]") if r in Aset] or structural
+            branches = [b for b in ("[Branch1]", "[=Branch1]", "[#Branch1]", "[Branch2]") if b in Aset] or structural
+            small = [i for i in ("[C]", "[Ring1]", "[Ring2]", "[Branch1]", "[=Branch1]", "[#Branch1]") if i in Aset] or A
+            pr = rng.choice((0.15, 0.3, 0.45))
+            pb = rng.choice((0.05, 0.15, 0.3))
+            w = []
+            while len(w) < L:
+                t = rng.random()
+                if t < pr and rings:
+                    w.append(rng.choice(rings))
+                    w.append(rng.choice(small))
+                elif t < pr + pb and branches:
+                    w.append(rng.choice(branches))
+                    w.append(rng.choice(small))
+                else:
+                    w.append(rng.choice(atoms))
+            out.append("".join(w))
             continue
         if u < 0.3:
             pool = A
